@@ -1004,10 +1004,262 @@ def s_default_not_persisted(E, tier):
         E.viol('C02', 'default', f'spelling out a dont-persist default moved data:src: {c["data:src"]} vs {c2["data:src"]}', 'noise=0', key='plain-default')
 
 
+# =================================================================================================
+# adversarial naming: namespaces, task names, config names and patterns that are textual prefixes of each other
+# =================================================================================================
+def s_ns_prefix(E, tier):
+    """C01 / C09: values given for one namespace reach exactly that namespace - also when another namespace's name starts with it"""
+    from taskchain import Config
+    d = E.dir()
+    for names in (('m', 'm2'), ('m2', 'm'), ('ab', 'a'), ('a', 'a::b')):
+        for ctx_order in (0, 1):
+            E.tried += 1
+            fvals = {'x': 1, 'y': 2}
+            per_ns = {names[0]: {'x': 11}} if ctx_order == 0 else {names[1]: {'y': 7}, names[0]: {'x': 11}}
+            mounts = []
+            for n in names:
+                if '::' in n:
+                    outer, inner_ = n.split('::')
+                    mounts.append((outer, inner_))
+                else:
+                    mounts.append((n, None))
+            with quiet():
+                try:
+                    # build through files: one part mounted under every name
+                    fpart = E.write(d, f'part{E.n}', {'tasks': [f'{LIB}.NsScore'], **fvals})
+                    uses = []
+                    for outer, inner_ in mounts:
+                        if inner_ is None:
+                            uses.append(f'{fpart} as {outer}')
+                        else:
+                            mid = E.write(d, f'mid{E.n}_{outer}_{inner_}', {'uses': f'{fpart} as {inner_}'})
+                            uses.append(f'{mid} as {outer}')
+                    ftop = E.write(d, f'top{E.n}_{ctx_order}', {'uses': uses})
+                    ch = Config(d / f'data{E.n}_{ctx_order}', ftop, context={'for_namespaces': per_ns}).chain()
+                    for n in names:
+                        want = dict(fvals)
+                        want.update(per_ns.get(n, {}))
+                        got = ch[f'{n}::ns_score'].value
+                        if got != 1000 * want['x'] + want['y']:
+                            E.viol('C09', 'namespace_exact', f'namespaces {names}, context for_namespaces={per_ns}: task {n}::ns_score computed {got}, '
+                                   f'its own namespace gives x={want["x"]} y={want["y"]}', (names, per_ns), key='prefix-namespace')
+                            E.viol('C01', 'value', f'namespaces {names}, context for_namespaces={per_ns}: {n}::ns_score = {got}, reference {1000 * want["x"] + want["y"]}',
+                                   (names, per_ns), key='prefix-namespace')
+                except Exception as e:
+                    E.viol('C09', 'namespace_exact', f'namespaces {names}: chain construction failed with {type(e).__name__}: {e}', names, key='prefix-namespace-error')
+
+
+def s_lazy_inputs(E, tier):
+    """C04: an input task that is declared but not a run argument is not computed unless the task pulls it"""
+    from taskchain import Config, Task, Parameter
+    runs = []
+
+    class RawDump(Task):
+        def run(self) -> list:
+            runs.append('raw_dump')
+            return [1, 2, 3]
+
+    class FullScan(Task):
+        class Meta:
+            input_tasks = [RawDump]
+
+        def run(self, raw_dump) -> int:
+            runs.append('full_scan')
+            return sum(raw_dump)
+
+    class Summary(Task):
+        def run(self) -> int:
+            runs.append('summary')
+            return 5
+
+    class LazyReport(Task):
+        class Meta:
+            input_tasks = [Summary, FullScan]
+            parameters = [Parameter('detailed')]
+
+        def run(self, summary, detailed) -> dict:
+            runs.append('lazy_report')
+            return {'s': summary, 'full': self.input_tasks['full_scan'].value if detailed else None}
+    for detailed in (False, True):
+        d = E.dir()
+        E.tried += 1
+        runs.clear()
+        with quiet():
+            ch = Config(d / 'data', name='c', data={'tasks': [RawDump, FullScan, Summary, LazyReport], 'detailed': detailed}).chain()
+            v = ch['lazy_report'].value
+        want = ['summary', 'lazy_report'] + (['raw_dump', 'full_scan'] if detailed else [])
+        if sorted(runs) != sorted(want):
+            E.viol('C04', 'only_needed', f'detailed={detailed}: requesting lazy_report ran {runs}; only {want} are needed '
+                   '(full_scan is declared as an input but is pulled by the task only when detailed)', detailed, key='undeclared-run-argument')
+        if v != {'s': 5, 'full': 6 if detailed else None}:
+            E.viol('C04', 'only_needed', f'detailed={detailed}: value {v!r}', detailed, key='lazy-value')
+
+
+def s_delete_exact(E, tier):
+    """C07: force(delete_data=True) removes the stored results of exactly the forced closure - nothing of another config
+    in the same directory, whatever the configs are called (name mode stores results under the config name)"""
+    from taskchain import Config, Chain, Task, Parameter
+
+    class DSrc(Task):
+        class Meta:
+            parameters = [Parameter('size')]
+
+        def run(self, size) -> int:
+            return size
+
+    class DOut(Task):
+        class Meta:
+            input_tasks = [DSrc]
+
+        def run(self, d_src) -> int:
+            return d_src + 1
+
+    def files(root):
+        return {os.path.relpath(os.path.join(dp, f), root) for dp, dn, fn in os.walk(root) for f in fn}
+    for pmode in (False, True):
+        for names in (('exp', 'exp.big'), ('exp.big', 'exp'), ('run', 'run_2'), ('a.b', 'a')):
+            d = E.dir()
+            E.tried += 1
+            with quiet():
+                mk = lambda: [Chain(Config(d, name=n, data={'tasks': [DSrc, DOut], 'size': i + 1}), parameter_mode=pmode) for i, n in enumerate(names)]
+                first, second = mk()
+                _ = first['d_out'].value, second['d_out'].value
+                first, second = mk()
+                other_files = {str(Path(t.data_path).relative_to(d)) for t in second.tasks.values()}
+                own_files = {str(Path(t.data_path).relative_to(d)) for t in first.tasks.values()}
+                before = files(d)
+                first.force('d_src', delete_data=True)
+                after = files(d)
+            gone = before - after
+            result_files_gone = {f for f in gone if f in other_files}
+            if result_files_gone:
+                E.viol('C07', 'delete_exact', f'configs {names} (parameter_mode={pmode}) share a directory: forcing d_src of `{names[0]}` with delete_data '
+                       f'also deleted results of `{names[1]}`: {sorted(result_files_gone)}', (names, pmode), key='other-config-result-deleted')
+            if not (own_files - other_files) <= gone:
+                E.viol('C07', 'delete_exact', f'configs {names} (parameter_mode={pmode}): results of the forced closure were not deleted: '
+                       f'{sorted((own_files - other_files) - gone)}', (names, pmode), key='closure-result-kept')
+
+
+def s_pattern_exact(E, tier):
+    """C08: a pattern input binds exactly the tasks whose whole local name matches, inside the declaring task's namespace"""
+    from taskchain import Config, Task
+
+    class SplitTrain(Task):
+        def run(self) -> list:
+            return [1]
+
+    class SplitTest(Task):
+        def run(self) -> list:
+            return [2]
+
+    class SplitTestStats(Task):
+        class Meta:
+            input_tasks = [SplitTest]
+
+        def run(self, split_test) -> int:
+            return len(split_test)
+
+    class XSplitTrain(Task):
+        def run(self) -> list:
+            return [9]
+
+    class Merged(Task):
+        class Meta:
+            input_tasks = ['~split_(train|test)']
+
+        def run(self) -> list:
+            return sorted(self.input_tasks.keys())
+    for pmode in (True, False):
+        d = E.dir()
+        E.tried += 1
+        with quiet():
+            try:
+                ch = Config(d / 'data', name='c', data={'tasks': [SplitTrain, SplitTest, SplitTestStats, XSplitTrain, Merged]}).chain(parameter_mode=pmode)
+                got = sorted(ch['merged'].input_tasks.keys())
+                req = sorted(t.fullname for t in ch.required_tasks('merged'))
+            except Exception as e:
+                E.viol('C08', 'pattern_exact', f'chain with a pattern input failed: {type(e).__name__}: {e}', pmode, key='pattern-error')
+                continue
+        if got != ['split_test', 'split_train']:
+            E.viol('C08', 'pattern_exact', f"input '~split_(train|test)' bound {got}; exactly split_test and split_train match the whole pattern "
+                   '(split_test_stats only starts with a match, x_split_train only ends with one)', got, key='pattern-not-anchored')
+        if req != ['split_test', 'split_train']:
+            E.viol('C08', 'pattern_exact', f'required_tasks(merged) = {req}', req, key='pattern-closure')
+
+
+def s_ctx_uses_string(E, tier):
+    """C11: placeholders are replaced in `uses` of contexts too - written as a list or as a single string, at top level or
+    inside a namespaced context"""
+    from taskchain import Config
+    for form in ('list', 'string'):
+        for nested in (True, False):
+            d = E.dir()
+            E.tried += 1
+            inner = E.write(d, 'context_inner', {'x': 3})
+            use = '{DIR}/context_inner.json as inner'
+            E.write(d, 'context_ns', {'x': 4, 'uses': [use] if form == 'list' else use})
+            top = E.write(d, 'context', {'uses': ['{DIR}/context_ns.json as ns']}) if nested else E.write(d, 'context', {'x': 4, 'uses': [use] if form == 'list' else use})
+            ns = 'ns::inner' if nested else 'inner'
+            with quiet():
+                try:
+                    c = Config(d, data={'x': 0}, name='config', namespace=ns, context=top, global_vars={'DIR': str(d)})
+                    got = c['x']
+                except Exception as e:
+                    got = f'{type(e).__name__}: {e}'
+            if got != 3:
+                E.viol('C11', 'context_uses', f'context `uses` given as a {form} ({"inside a namespaced context" if nested else "top level"}) with a placeholder: '
+                       f'config in namespace {ns} sees x = {got!r}, the used context gives 3', (form, nested), key=f'uses-{form}-{"nested" if nested else "top"}')
+
+
+def s_log_isolation(E, tier):
+    """C18: the log of a task holds the messages of its own run only - also when another task's name starts with its name"""
+    import logging as _logging
+    from taskchain import Config, Task, Parameter
+
+    class Raw(Task):
+        class Meta:
+            task_group = 'features'
+            parameters = [Parameter('n')]
+
+        def run(self, n) -> list:
+            self.logger.info(f'raw: generating {n} rows')
+            return list(range(n))
+
+    class Clean(Task):
+        class Meta:
+            task_group = 'features'
+            input_tasks = [Raw]
+
+        def run(self, raw) -> list:
+            self.logger.info(f'clean: got {len(raw)} rows')
+            return raw[1:]
+
+    class Features(Task):
+        class Meta:
+            input_tasks = [Raw, Clean]
+
+        def run(self, raw, clean) -> dict:
+            self.logger.info(f'features: combining {len(raw)} and {len(clean)}')
+            return {'raw': len(raw), 'clean': len(clean)}
+    d = E.dir()
+    E.tried += 1
+    with quiet(keep_logging=True):
+        ch = Config(d / 'data', name='cfg', data={'tasks': [Raw, Clean, Features], 'n': 5}).chain()
+        _ = ch['features'].value
+        logs = {n: list(ch[n].log or []) for n in ('features:raw', 'features:clean', 'features')}
+    own = {'features:raw': ['raw: generating 5 rows'], 'features:clean': ['clean: got 5 rows'], 'features': ['features: combining 5 and 4']}
+    for n, rows in logs.items():
+        foreign = [r for r in rows if any(m in r for k, ms in own.items() if k != n for m in ms)]
+        missing = [m for m in own[n] if not any(m in r for r in rows)]
+        if foreign or missing:
+            E.viol('C18', 'log_own_run', f'log of {n}: ' + (f'holds messages of other tasks {foreign[:3]}' if foreign else f'misses its own messages {missing}'),
+                   n, key='foreign-messages' if foreign else 'own-messages-missing')
+
+
 SCENARIOS = {
-    'C01': [s_values_and_history, s_namespaces], 'C02': [s_same_location, s_different_location, s_process_independent, s_default_not_persisted], 'C03': [s_different_location, s_injective],
-    'C04': [s_values_and_history], 'C07': [s_forcing], 'C08': [s_graph, s_namespaces], 'C09': [s_contexts, s_namespaces, s_values_and_history],
-    'C10': [s_namespaces], 'C11': [s_contexts], 'C13': [s_multichain], 'C18': [s_run_records], 'C19': [s_test_helpers], 'C20': [s_migration],
+    'C01': [s_values_and_history, s_namespaces, s_ns_prefix], 'C02': [s_same_location, s_different_location, s_process_independent, s_default_not_persisted], 'C03': [s_different_location, s_injective],
+    'C04': [s_values_and_history, s_lazy_inputs], 'C07': [s_forcing, s_delete_exact], 'C08': [s_graph, s_namespaces, s_pattern_exact], 'C09': [s_contexts, s_namespaces, s_values_and_history, s_ns_prefix],
+    'C10': [s_namespaces], 'C11': [s_contexts, s_ctx_uses_string], 'C13': [s_multichain], 'C18': [s_run_records, s_log_isolation], 'C19': [s_test_helpers], 'C20': [s_migration],
 }
 
 
